@@ -110,7 +110,7 @@ def gen_c09_spec(rng: random.Random) -> Dict[str, Any]:
         for op_ in ops:
             _clean(op_.get("labels", {}))
     spec: Dict[str, Any] = {
-        "declared": declared, "ops": ops, "fmt": fmt, "fmt2": fmt2, "use_retry": use_retry, "shared": shared, "validate": rng.random() < 0.75,
+        "declared": declared, "ops": ops, "fmt": fmt, "fmt2": fmt2, "use_retry": use_retry, "shared": shared, "validate": rng.random() < 0.75, "stamp": rng.random() < 0.2,
         "retry_labels": rng.choice(["declared", "op"]),
         "no_result_on_retry": rng.random() < 0.5,
         "A": rng.choice([1, 2, None]),
@@ -181,7 +181,14 @@ def run_c09(spec: Dict[str, Any]) -> "tuple[List[Violation], Dict[str, Any]]":
 
         mem_source = MemSource()
 
-        mws: List[Any] = [RecMw()]
+        class StampMw(TaskiqMiddleware):
+            """A client-side tracing middleware: stamps a label on the outgoing message (no entry in the type table)."""
+
+            def pre_send(self, message: Any) -> Any:
+                message.labels["trace_id"] = "abc123"
+                return message
+
+        mws: List[Any] = [RecMw()] + ([StampMw()] if spec.get("stamp") else [])
         if spec["use_retry"]:
             mws.append(SimpleRetryMiddleware(default_retry_count=3, default_retry_label=False,
                                              no_result_on_retry=spec["no_result_on_retry"]))
@@ -253,6 +260,8 @@ def run_c09(spec: Dict[str, Any]) -> "tuple[List[Violation], Dict[str, Any]]":
             obs["sends"] += 1
             expect = dict(declared)
             expect.update(over)
+            if spec.get("stamp") and op["kind"] != "broker":
+                expect["trace_id"] = "abc123"  # (a send to another broker goes through that broker's middlewares: none)
             new1, new2 = sc.kicked[n1:], broker2.sent[n2:]
             if op["kind"] == "broker":
                 if len(new2) != 1 or new1:
